@@ -74,9 +74,10 @@ def shards(tier):
     out.append({"buf": 8192, "kind": "vhdx-locate"})
     for buf in bufs[:2] if q else bufs:
         for mech in ("vmdk-hosted", "vmdk-stream", "vmdk-sesparse", "vmdk-multi", "hdd", "hdd-top", "hdd-topdefault", "hdd-plainbase", "hdd-split",
-                     "qcow2", "qcow2-ext", "vdi", "vdi-mixed", "vdi-mixed-up", "vdi-grown", "hdd-grown", "vmdk-grown", "qcow2-grown"):
+                     "qcow2", "qcow2-ext", "vdi", "vdi-mixed", "vdi-mixed-up", "vdi-grown", "hdd-grown", "vmdk-grown", "qcow2-grown",
+                     "vdi-grownpart", "hdd-grownpart", "vmdk-grownpart"):
             for depth in (1, 2, 3):
-                if (mech.startswith("vdi-mixed") or mech.endswith("-grown")) and depth == 1:
+                if (mech.startswith("vdi-mixed") or mech.endswith("-grown") or mech.endswith("-grownpart")) and depth == 1:
                     continue
                 W = 3 if depth < 3 else 2
                 if mech.endswith("-grown"):
@@ -506,11 +507,12 @@ ALPHA = {"vmdk-stream": [HOLE, ZERO, DATA], "vmdk-hosted": [HOLE, ZERO, DATA], "
          "hdd-split": [HOLE, DATA], "hdd": [HOLE, DATA], "hdd-top": [HOLE, DATA], "hdd-topdefault": [HOLE, DATA], "hdd-plainbase": [HOLE, DATA],
          "qcow2": ["U", "Z", "N", "C"], "qcow2-ext": ["u", "a", "z"], "vdi": [HOLE, ZERO, DATA],
          "vdi-mixed": [HOLE, ZERO, DATA], "vdi-mixed-up": [HOLE, ZERO, DATA],
-         "vdi-grown": [HOLE, ZERO, DATA], "hdd-grown": [HOLE, DATA], "vmdk-grown": [HOLE, ZERO, DATA], "qcow2-grown": ["U", "Z", "N"]}
+         "vdi-grown": [HOLE, ZERO, DATA], "hdd-grown": [HOLE, DATA], "vmdk-grown": [HOLE, ZERO, DATA], "qcow2-grown": ["U", "Z", "N"],
+         "vdi-grownpart": [HOLE, ZERO, DATA], "hdd-grownpart": [HOLE, DATA], "vmdk-grownpart": [HOLE, ZERO, DATA]}
 UNIT = {"vmdk-stream": 4096, "hdd-split": 4096, "vmdk-hosted": 4096, "vmdk-sesparse": 4096, "vmdk-multi": 4096, "hdd": 4096, "hdd-top": 4096,
         "hdd-topdefault": 4096, "hdd-plainbase": 4096, "qcow2": 4096, "qcow2-ext": 512,
         "vdi": 4096, "vdi-mixed": 4096, "vdi-mixed-up": 4096, "vdi-grown": 4096, "hdd-grown": 4096, "vmdk-grown": 4096,
-        "qcow2-grown": 4096}
+        "qcow2-grown": 4096, "vdi-grownpart": 4096, "hdd-grownpart": 4096, "vmdk-grownpart": 4096}
 
 
 def _grown_lens(mech, depth, W):
@@ -519,6 +521,14 @@ def _grown_lens(mech, depth, W):
     if not mech.endswith("-grown"):
         return [W] * depth
     return [W - (depth - 1 - k) for k in range(depth)]
+
+
+def _part_sizes(mech, depth, W, unit):
+    """`-grownpart` mechanisms: every layer has W units, but the virtual size of an ancestor ends inside its last unit, a quarter
+    of a unit and one sector earlier per level (so a request can straddle the end of one or two ancestors inside one unit)."""
+    if not mech.endswith("-grownpart"):
+        return None
+    return [W * unit - (depth - 1 - k) * (unit // 4 + 512) for k in range(depth)]
 
 
 def _mixed_layer(st, k, unit, up=False):
@@ -588,9 +598,10 @@ def _case_chain(case, ctx, d, cache):
             disk = GuestDisk(16384, 16384, [DATA], k + 1, disk, {0: _to_model_states(mech, sub)})
         size = 16384
     else:
+        psz = _part_sizes(mech, depth, W, unit)
         for k, st in enumerate(layers):
             ul = {i: (pattern.COMPRESSIBLE | (k + 1)) for i, x in enumerate(st) if x == "C"}
-            disk = GuestDisk(len(st) * unit, unit, _to_model_states(mech, st), k + 1, disk, unit_layers=ul)
+            disk = GuestDisk(psz[k] if psz else len(st) * unit, unit, _to_model_states(mech, st), k + 1, disk, unit_layers=ul)
     ctx.model([mech, layers])
     ctx.executions += 1
     ctx.sample(case)
@@ -603,6 +614,8 @@ def _case_chain(case, ctx, d, cache):
             for dlt in (-512, -1, 0, 1, 512, unit // 2):
                 pts.add(u * unit + dlt)
         pts |= {size - 1, size, size + 1}
+        for e_ in (_part_sizes(mech, depth, W, unit) or [])[:-1]:
+            pts |= {e_ - 512, e_ - 1, e_, e_ + 1, e_ + 512}
         pts = sorted(p for p in pts if 0 <= p <= size + 1)
         reqs = request_pairs(pts)
         spts = sorted({p // 512 for p in pts if p <= size})
@@ -628,8 +641,9 @@ def _case_chain(case, ctx, d, cache):
                 hdd, guids = top._verif_hdd
                 m = None
                 for k, st in enumerate(layers):
-                    m = GuestDisk(len(st) * unit, unit, _to_model_states(mech, st), k + 1, m)
-                    if len(st) != W:
+                    vps = _part_sizes(mech, depth, W, unit)
+                    m = GuestDisk(vps[k] if vps else len(st) * unit, unit, _to_model_states(mech, st), k + 1, m)
+                    if len(st) != W or (vps and k < depth - 1):
                         continue  # the view of a snapshot taken before the disk was enlarged: its size is not stated anywhere
                     for g in (guids[k], guids[k].strip("{}")):
                         view = hdd.open(g)
@@ -656,8 +670,11 @@ def _open_chain(mech, layers, d, cache, unit):
     depth = len(layers)
     W = len(layers[-1])  # the top layer's length is the disk's (ancestors of `-grown` chains are shorter)
     grown = mech.endswith("-grown")
+    psz = _part_sizes(mech, depth, W, unit)
     if grown:
         mech = {"vdi-grown": "vdi", "hdd-grown": "hdd", "vmdk-grown": "vmdk-hosted", "qcow2-grown": "qcow2"}[mech]
+    if psz:
+        mech = {"vdi-grownpart": "vdi", "hdd-grownpart": "hdd", "vmdk-grownpart": "vmdk-hosted"}[mech]
     if mech.startswith("vmdk"):
         from dissect.hypervisor.disk.vmdk import VMDK
 
@@ -665,7 +682,7 @@ def _open_chain(mech, layers, d, cache, unit):
 
         grain = unit // 512
         for k, st in enumerate(layers):
-            key = (mech, k, tuple(st))
+            key = (mech, k, tuple(st), psz[k] if psz else None)
             name = f"l{k}"
             if cache.get(name) == key:
                 continue
@@ -689,8 +706,9 @@ def _open_chain(mech, layers, d, cache, unit):
                 else:
                     # content of extent xi starts at guest grain g0: give the builder the absolute guest position
                     # (vmdk-stream: every layer is a compressed, stream-optimized extent -- deltas of that kind have parents too)
-                    img = _hosted_extent(B, part, slots, grain, k + 1, g0, compressed=mech == "vmdk-stream")
-                    extents.append(("RW", n * grain, "SPARSE", fn, None))
+                    img = _hosted_extent(B, part, slots, grain, k + 1, g0, compressed=mech == "vmdk-stream",
+                                         capacity=psz[k] // 512 if psz else None)
+                    extents.append(("RW", psz[k] // 512 if psz else n * grain, "SPARSE", fn, None))
                 if kind == "sesparse" and g0:
                     raise AssertionError
                 img.write_to(os.path.join(sub, fn))
@@ -779,14 +797,14 @@ def _open_chain(mech, layers, d, cache, unit):
         for k, st in enumerate(layers):
             fn = f"verif.hdd.0.{guids[k]}.hds"
             plain = mech == "hdd-plainbase" and k == 0
-            key = (mech, k, tuple(st), guids[k])
+            key = (mech, k, tuple(st), guids[k], psz[k] if psz else None)
             if cache.get(("f", k)) != key:
                 if plain:
                     with open(os.path.join(hd, fn), "wb") as f:
                         f.write(pattern.span(1, 0, W * unit))
                 else:
                     slots = [s + 1 if s is not None else None for s in _slots_for(st, k, (DATA,))]
-                    B.build_hds(st, slots, spc, 2 if k % 2 == 0 else 1, len(st) * spc, layer=k + 1).write_to(
+                    B.build_hds(st, slots, spc, 2 if k % 2 == 0 else 1, psz[k] // 512 if psz else len(st) * spc, layer=k + 1).write_to(
                         os.path.join(hd, fn))
                 cache[("f", k)] = key
             images.append((guids[k], "Plain" if plain else "Compressed", fn))
@@ -854,19 +872,19 @@ def _open_chain(mech, layers, d, cache, unit):
         v = None
         for k, st in enumerate(layers):
             slots = _slots_for(st, k, (DATA,))
-            img = B.build(list(st), slots, unit, layer=k + 1, image_type=4 if k else 1,
+            img = B.build(list(st), slots, unit, psz[k] if psz else None, layer=k + 1, image_type=4 if k else 1,
                           parent_uuid=b"\x11" * 16 if k else b"")
             v = VDI(img.bytesio(), parent=v) if k else VDI(img.bytesio())
         return v, None, (lambda: None)
     raise ValueError(mech)
 
 
-def _hosted_extent(B, part, slots, grain, layer, g0, compressed=False):
+def _hosted_extent(B, part, slots, grain, layer, g0, compressed=False, capacity=None):
     """A hosted sparse extent whose grain j holds the pattern of *guest* grain g0 + j (extents are concatenated)."""
     if compressed:
         assert g0 == 0
         return B.build_hosted(part, slots, grain, 512, len(part) * grain, layer=layer, compressed=True, footer=True, stride=grain + 2)
-    img = B.build_hosted(part, slots, grain, 512, len(part) * grain, layer=layer)
+    img = B.build_hosted(part, slots, grain, 512, capacity or len(part) * grain, layer=layer)
     if g0:
         # re-tag payload extents: the builder used guest offsets relative to the extent
         ext = []
